@@ -1281,13 +1281,15 @@ def expand_module(tree: ast.Module, modname: str) -> Tuple[int, List[str]]:
     # a module the rules never saw has no anchors: all of its helpers may be expanded
     known = kf.get(modname, set())
     lm = lower_match(tree)
+    ud = undo_decorators(tree, known)
     nc = propagate_new_constants(tree, modname) + len(lm)
     te = TableEvaluator(tree)
     nt = te.run() + nc
     if nc:
         te.sites.append(f"{nc} function(s) with new named constants replaced by their literals")
     ex = Expander(tree, modname, known)
-    n = ex.run()
+    n = ex.run() + len(ud)
+    ex.sites = ud + ex.sites
     cs = collapse_container_subclasses(tree, known, ex) if n else []
     ea = eafp_lookups(tree, modname)
     fl = single_use_flags(tree, modname)
@@ -2256,4 +2258,219 @@ def undo_moves(trees: Dict[str, ast.Module]) -> List[str]:
     for t in trees.values():
         if not t.body:
             t.body.append(ast.Pass())
+    return out
+
+
+# ======================================================================================================================
+# Methods moved into a new base class / mixin (`class MessageManager(SubscriptionMixin, ClientLike)` with the subscription
+# handlers now living in pyrtma/subscriptions.py): a class of the pinned tree that misses methods it had, and lists a base
+# class the rules never saw which defines them, gets those definitions back into its own body.  Exact as far as method
+# resolution goes when the new base is first in the MRO among classes defining the name and is used by this class only.
+# ======================================================================================================================
+def undo_mixins(trees: Dict[str, ast.Module]) -> List[str]:
+    kf = known_functions()
+    if not kf:
+        return []
+    out: List[str] = []
+    classes: Dict[str, List[Tuple[str, ast.ClassDef]]] = {}
+    for mod, t in trees.items():
+        for st in t.body:
+            if isinstance(st, ast.ClassDef):
+                classes.setdefault(st.name, []).append((mod, st))
+    known_classes = {q.split(".")[0] for ks in kf.values() for q in ks if "." in q and not q.startswith(("=", "#"))}
+    users: Dict[str, int] = {}
+    for lst in classes.values():
+        for _, c in lst:
+            for b in c.bases:
+                bn = b.attr if isinstance(b, ast.Attribute) else (b.id if isinstance(b, ast.Name) else None)
+                if bn:
+                    users[bn] = users.get(bn, 0) + 1
+    for mod, t in trees.items():
+        known = kf.get(mod, set())
+        for c in [st for st in t.body if isinstance(st, ast.ClassDef)]:
+            want = {q.split(".", 1)[1] for q in known if q.startswith(c.name + ".") and q.count(".") == 1}
+            have = {m.name for m in c.body if isinstance(m, (ast.FunctionDef, ast.AsyncFunctionDef))}
+            missing = want - have
+            if not missing:
+                continue
+            for b in list(c.bases):
+                bn = b.attr if isinstance(b, ast.Attribute) else (b.id if isinstance(b, ast.Name) else None)
+                if not bn or bn in known_classes or len(classes.get(bn, [])) != 1 or users.get(bn, 0) != 1:
+                    continue
+                bmod, bc = classes[bn][0]
+                if any(isinstance(x, ast.FunctionDef) and x.name in ("__init__", "__new__", "__init_subclass__") for x in bc.body) or bc.bases and any(
+                        (bb.id if isinstance(bb, ast.Name) else None) not in (None, "object") and (bb.id if isinstance(bb, ast.Name) else None) in classes for bb in bc.bases):
+                    continue
+                moved = [m for m in bc.body if isinstance(m, (ast.FunctionDef, ast.AsyncFunctionDef)) and m.name not in have]
+                if not any(m.name in missing for m in moved):
+                    continue
+                for m in moved:
+                    bc.body.remove(m)
+                    c.body.append(m)
+                    have.add(m.name)
+                # class-level assignments of the mixin (constants) follow; pure annotations are dropped
+                for x in list(bc.body):
+                    if isinstance(x, ast.Assign):
+                        bc.body.remove(x)
+                        c.body.insert(0, x)
+                if not [x for x in bc.body if not isinstance(x, (ast.AnnAssign, ast.Pass)) and not (isinstance(x, ast.Expr) and isinstance(x.value, ast.Constant))]:
+                    c.bases.remove(b)
+                    trees[bmod].body.remove(bc)
+                if not bc.body:
+                    bc.body.append(ast.Pass())
+                out.append(f"{c.name}: {len(moved)} method(s) back from {bn} ({bmod})")
+                missing = want - have
+    for t in trees.values():
+        if not t.body:
+            t.body.append(ast.Pass())
+    return out
+
+
+# ======================================================================================================================
+# Decorators that factor out common pre / post work (`@drops_module_on_write_error`, `@unique_name("constants", NS)`,
+# `@_validates_value`): a decorator defined in the module that the rules never saw, of the shape
+#     def deco(fn):                       def deco(a, b):
+#         @wraps(fn)                          def inner(fn):
+#         def wrapper(<params>):                  @wraps(fn)
+#             ... fn(<params>) ...                def wrapper(<params>): ... fn(<params>) ...
+#         return wrapper                          return wrapper
+#                                              return inner
+# is applied by hand: the decorated function becomes the wrapper's body (its parameters renamed to the function's own, the
+# factory's parameters replaced by the arguments written at the decoration), calling the undecorated original - which the
+# helper expansion then writes in place.  Exact: this is what the decoration computes.
+# ======================================================================================================================
+def undo_decorators(tree: ast.Module, known: Set[str]) -> List[str]:
+    out: List[str] = []
+    funcs = {st.name: st for st in tree.body if isinstance(st, ast.FunctionDef)}
+
+    def wrapper_of(d: ast.FunctionDef):
+        """(factory params, fn param name, wrapper FunctionDef) when d has one of the two shapes"""
+        body = [b for b in d.body if not (isinstance(b, ast.Expr) and isinstance(b.value, ast.Constant))]
+        rv = body[1].value if len(body) == 2 and isinstance(body[1], ast.Return) else None
+        if isinstance(rv, ast.Call) and ast.unparse(rv.func).split(".")[-1] == "cast" and len(rv.args) == 2:
+            rv = rv.args[1]  # typing.cast(F, wrapper)
+        if len(body) == 2 and isinstance(body[0], ast.FunctionDef) and isinstance(rv, ast.Name) and rv.id == body[0].name:
+            inner = body[0]
+            if len(d.args.args) == 1 and not d.args.vararg and not d.args.kwarg and not d.args.kwonlyargs:
+                # direct decorator?  the inner function must call d's parameter
+                fnp = d.args.args[0].arg
+                if any(isinstance(n, ast.Call) and isinstance(n.func, ast.Name) and n.func.id == fnp for n in ast.walk(inner)):
+                    return [], fnp, inner
+            # factory: inner is `def deco(fn): def wrapper...; return wrapper`
+            r = wrapper_of(inner)
+            if r is not None and not r[0] and not d.args.vararg and not d.args.kwarg:
+                return [a.arg for a in d.args.posonlyargs + d.args.args + d.args.kwonlyargs], r[1], r[2], d
+        return None
+
+    def process(owner_body: List[ast.stmt], cname: Optional[str]):
+        for f in list(owner_body):
+            if not isinstance(f, ast.FunctionDef) or not f.decorator_list:
+                continue
+            qual = f"{cname}.{f.name}" if cname else f.name
+            for dec in list(f.decorator_list):
+                dn = dec.func if isinstance(dec, ast.Call) else dec
+                if not isinstance(dn, ast.Name) or dn.id not in funcs or dn.id in known:
+                    continue
+                w = wrapper_of(funcs[dn.id])
+                if w is None:
+                    continue
+                fparams, fnp, wr = w[0], w[1], w[2]
+                if bool(fparams) != isinstance(dec, ast.Call):
+                    continue
+                if f.decorator_list.index(dec) != len(f.decorator_list) - 1:
+                    continue  # only the innermost decorator is applied by hand
+                if f.args.vararg or f.args.kwarg or any(isinstance(n, (ast.Yield, ast.YieldFrom)) for n in ast.walk(f)):
+                    continue
+                # factory arguments
+                fsub: Dict[str, ast.expr] = {}
+                if fparams:
+                    factory = w[3]
+                    if any(isinstance(a, ast.Starred) for a in dec.args) or any(k.arg is None for k in dec.keywords) or len(dec.args) > len(fparams):
+                        continue
+                    for pn, a in zip(fparams, dec.args):
+                        fsub[pn] = a
+                    for k in dec.keywords:
+                        fsub[k.arg] = k.value
+                    allp = [a.arg for a in factory.args.posonlyargs + factory.args.args]
+                    for pn, dv in zip(allp[len(allp) - len(factory.args.defaults):], factory.args.defaults):
+                        fsub.setdefault(pn, dv)
+                    for a_, dv in zip(factory.args.kwonlyargs, factory.args.kw_defaults):
+                        if dv is not None:
+                            fsub.setdefault(a_.arg, dv)
+                    if set(fparams) - set(fsub) or not all(_pure(v) or isinstance(v, (ast.Constant, ast.Tuple)) for v in fsub.values()):
+                        continue
+                # wrapper parameters <-> the function's own
+                wnamed = [a.arg for a in wr.args.posonlyargs + wr.args.args]
+                fown = [a.arg for a in f.args.posonlyargs + f.args.args]
+                if len(wnamed) > len(fown) or wr.args.kwonlyargs:
+                    continue
+                if len(wnamed) < len(fown) and not wr.args.vararg:
+                    continue
+                ren = dict(zip(wnamed, fown))
+                rest = fown[len(wnamed):]
+                var, kw = (wr.args.vararg.arg if wr.args.vararg else None), (wr.args.kwarg.arg if wr.args.kwarg else None)
+                orig_name = f"_undecorated_{f.name.strip('_')}"
+                is_method = cname is not None and fown and not any(ast.unparse(x) in ("staticmethod", "classmethod") for x in f.decorator_list)
+                ok = [True]
+
+                class W(ast.NodeTransformer):
+                    def visit_FunctionDef(self_, n):
+                        ok[0] = False
+                        return n
+
+                    visit_Lambda = visit_AsyncFunctionDef = visit_FunctionDef
+
+                    def visit_Name(self_, n):
+                        if n.id in fsub and isinstance(n.ctx, ast.Load):
+                            return ast.copy_location(copy.deepcopy(fsub[n.id]), n)
+                        if n.id in ren:
+                            return ast.copy_location(ast.Name(id=ren[n.id], ctx=n.ctx), n)
+                        if n.id in (var, kw) or n.id == fnp:
+                            ok[0] = False  # used other than in the forwarding call
+                        return n
+
+                    def visit_Call(self_, n):
+                        if isinstance(n.func, ast.Name) and n.func.id == fnp:
+                            args: List[ast.expr] = []
+                            for a in n.args:
+                                if isinstance(a, ast.Starred) and isinstance(a.value, ast.Name) and a.value.id == var:
+                                    args.extend(ast.Name(id=r_, ctx=ast.Load()) for r_ in rest)
+                                else:
+                                    args.append(self_.visit(a))
+                            kws = [k for k in n.keywords if not (k.arg is None and isinstance(k.value, ast.Name) and k.value.id == kw)]
+                            for k in kws:
+                                k.value = self_.visit(k.value)
+                            if len(args) != len(fown):
+                                ok[0] = False
+                                return n
+                            if is_method:
+                                if not (isinstance(args[0], ast.Name) and args[0].id == fown[0]):
+                                    ok[0] = False
+                                    return n
+                                return ast.copy_location(ast.Call(func=ast.Attribute(value=ast.Name(id=fown[0], ctx=ast.Load()), attr=orig_name, ctx=ast.Load()), args=args[1:], keywords=kws), n)
+                            return ast.copy_location(ast.Call(func=ast.Name(id=orig_name, ctx=ast.Load()), args=args, keywords=kws), n)
+                        self_.generic_visit(n)
+                        return n
+
+                nb = [W().visit(copy.deepcopy(b)) for b in wr.body if not (isinstance(b, ast.Expr) and isinstance(b.value, ast.Constant))]
+                if not ok[0] or not nb:
+                    continue
+                if is_method and fown[0] != "self":
+                    continue
+                orig = copy.deepcopy(f)
+                orig.name = orig_name
+                orig.decorator_list = [x for x in orig.decorator_list if x is not None and ast.dump(x) != ast.dump(dec)]
+                doc = [b for b in f.body[:1] if isinstance(b, ast.Expr) and isinstance(b.value, ast.Constant) and isinstance(b.value.value, str)]
+                f.body = doc + nb
+                f.decorator_list = [x for x in f.decorator_list if x is not dec]
+                owner_body.insert(owner_body.index(f) + 1, orig)
+                ast.fix_missing_locations(f)
+                ast.fix_missing_locations(orig)
+                out.append(f"{qual}: decorator {dn.id} applied by hand")
+                break
+
+    for st in tree.body:
+        if isinstance(st, ast.ClassDef):
+            process(st.body, st.name)
+    process(tree.body, None)
     return out
